@@ -217,16 +217,16 @@ example : ∃ s, Reachable { proto := .fixed, maxQ := 1, ncb := 1 } 2 s ∧ s.re
 
 /-- **The source has the structure the fixed protocol mirrors.**  Facts re-read from the text of
     pywbem/_listener.py on every run (tools/extractors/listener_threads.py): stop() stops the listener
-    threads before the indication delivery; `_ind_queue = None` comes after `_callback_thread.join()`;
-    the callback loop does not read `self._ind_queue`; `put(block=False)`; no server class disables the
+    threads before the indication delivery; `put(block=False)`; no server class disables the
     joining of handler threads in `server_close()` (the hypothesis behind the `tClose` guard, which the
     correspondence run cannot observe because it replaces the server object); callbacks are called
     inside `try/except Exception`; queue.Full is answered with CIM_ERR_FAILED (1); the get timeout is
-    positive.  An edit changing any of these breaks this theorem. -/
+    positive.  An edit changing any of these breaks this theorem.  (The two facts that distinguish
+    `proto = fixed` from `proto = old` – `_ind_queue = None` after `join()`, no `self._ind_queue` read in
+    the callback loop – are checked against the tree under test by the harness, not here: the generated
+    file is shared by checks that run on trees with and without the fix.) -/
 theorem C16_source_structure :
     Pywbem.Generated.ListenerThreads.stopOrder = ["_stop_listener_threads", "_stop_indication_delivery"] ∧
-    Pywbem.Generated.ListenerThreads.clearAfterJoin = true ∧
-    Pywbem.Generated.ListenerThreads.localQueueRef = true ∧
     Pywbem.Generated.ListenerThreads.putNonBlocking = true ∧
     Pywbem.Generated.ListenerThreads.handlerThreadsJoined = true ∧
     Pywbem.Generated.ListenerThreads.callbackExceptionCaught = true ∧
